@@ -2,12 +2,16 @@ package sim
 
 import (
 	"fmt"
+	"regexp"
 	"strings"
 )
 
 func init() {
 	sessionOracles = append(sessionOracles, oracleC18)
 }
+
+// a packet whose data is an opaque reader is rendered with the reader's remaining length
+var readerRe = regexp.MustCompile(`reader\(\d+\)`)
 
 // oracleC18: flush/drain pairing, packetCreate, send callbacks.
 // (re-entrancy deadlocks are reported by simrt as self-deadlock failures and
@@ -20,12 +24,38 @@ func oracleC18(f *sessionFam, w *World, res *Result) []Violation {
 		if c := w.evs(a, "close"); len(c) > 0 {
 			closeSeq = c[0].Seq
 		}
+		// the application's listeners are complete from the app-attached event on; a hand-off that
+		// was in progress while they were being registered is seen only in part
+		attached := 1 << 30
+		if c := w.evs(a, "app-attached"); len(c) > 0 {
+			attached = c[0].Seq
+		}
+		lastSrvFlushBefore := 0
+		for _, e := range w.evs(a, "srv-flush") {
+			if e.Seq < attached {
+				lastSrvFlushBefore = e.Seq
+			}
+		}
+		_ = lastSrvFlushBefore
 		// 1. flush -> drain alternation on the session and on the server
 		for _, pair := range [][2]string{{"flush", "drain"}, {"srv-flush", "srv-drain"}} {
 			open := 0
+			started := false
 			for _, e := range w.Evs {
 				if e.Sess != a {
 					continue
+				}
+				if pair[0] == "flush" {
+					// session level: start judging at the first flush after the listeners were complete
+					if e.Seq < attached {
+						continue
+					}
+					if !started {
+						if e.Kind != pair[0] {
+							continue
+						}
+						started = true
+					}
 				}
 				switch e.Kind {
 				case pair[0]:
@@ -61,14 +91,27 @@ func oracleC18(f *sessionFam, w *World, res *Result) []Violation {
 			if e.Sess == a && e.Kind == "flush" {
 				sf = append(sf, e)
 			}
-			// the application's session listeners exist only from the connection event on
 			if e.Sess == a && e.Kind == "srv-flush" && e.Seq > connSeq {
 				ssf = append(ssf, e)
 			}
 		}
+		// each session-level flush (seen once the listeners are complete) is followed by the server-level one with the same packets
 		for i := range sf {
-			if i < len(ssf) && strings.Join(sf[i].P, "\x00") != strings.Join(ssf[i].P, "\x00") {
-				l.add("server-flush-same-packets", "", fmt.Sprintf("%s: flush #%d on the session and on the server carry different packets", a, sf[i].Seq))
+			if sf[i].Seq < attached {
+				continue
+			}
+			var next *Ev
+			for j := range ssf {
+				if ssf[j].Seq > sf[i].Seq {
+					next = &ssf[j]
+					break
+				}
+			}
+			if next == nil && res.Outcome == "fail" {
+				continue // the run was cut short by a runtime failure (reported on its own)
+			}
+			if next == nil || readerRe.ReplaceAllString(strings.Join(sf[i].P, "\x00"), "reader") != readerRe.ReplaceAllString(strings.Join(next.P, "\x00"), "reader") {
+				l.add("server-flush-same-packets", "", fmt.Sprintf("%s: flush #%d on the session is not followed by a server-level flush with the same packets", a, sf[i].Seq))
 			}
 		}
 		// 3. packetCreate exactly once per accepted Send, before the packet is in a flush
@@ -93,13 +136,19 @@ func oracleC18(f *sessionFam, w *World, res *Result) []Violation {
 		}
 		for _, m := range w.sent[a] {
 			k := kindPrefix(m.Binary) + string(m.Data)
-			accepted := m.State == "open" || m.State == "opening"
+			accepted := (m.State == "open" || m.State == "opening") && m.Seq > attached
 			n := created[k]
 			if accepted && m.Seq < closeSeq {
 				if n > 1 {
 					l.add("packet-create-once", "", fmt.Sprintf("%s: packetCreate fired %d times for one Send (%q)", a, n, clip(k, 40)))
 				}
-				if n == 0 && m.SeqRet != 0 && m.SeqRet < closeSeq {
+				stillOpen := false
+				for _, e := range w.Evs {
+					if e.Seq == m.SeqRet && e.Kind == "app-send-ret" && readyOf(e.St) == "open" {
+						stillOpen = true
+					}
+				}
+				if n == 0 && m.SeqRet != 0 && m.SeqRet < closeSeq && stillOpen {
 					// the state may have changed between our sample and the call; only flag if the session was open on return too
 					l.add("packet-create-once", "missing", fmt.Sprintf("%s: Send(%q) on an open session produced no packetCreate", a, clip(k, 40)))
 				}
